@@ -570,6 +570,17 @@ def check_program(ck, model, root, pr, cfg, pm, pp, where, stats):
         got = (os.path.normpath(e[2]) if e[2] else None, (e[3] + 1) if e[3] is not None else None)
         if got != (os.path.normpath(rel), ln):
             kid = "internal-path-substring" if ipre.search(os.path.join(root, rel)) else None
+            if kid is None:
+                # line TEXT class: the user line carries a `# T2PT` comment and got the frame of a neighbouring TEAL line
+                src_lines = pr["files"].get(rel, "").split("\n")
+                text = src_lines[ln - 1] if 0 < ln <= len(src_lines) else ""
+                neigh = []
+                for k_ in (i - 1, i + 1):
+                    if 0 <= k_ < len(pm["entries"]):
+                        ne = pm["entries"][k_]
+                        neigh.append((os.path.normpath(ne[2]) if ne[2] else None, (ne[3] + 1) if ne[3] is not None else None))
+                if "# T2PT" in text and got in neigh and got[0] == os.path.normpath(rel):
+                    kid = "t2pt-comment-in-user-line"
             bad.append(("marker %d written on %s:%d is attributed to %s:%s (TEAL line %d `%s`)" % (val, rel, ln, got[0], got[1], i + 1, tl),
                         {"marker": val, "written": [rel, ln], "attributed": list(got), "teal_line": i + 1}, kid))
             if len([b for b in bad if b[0].startswith("marker")]) > 3:
@@ -1063,7 +1074,8 @@ def run_check(ck, thorough, tmp):
         kprojects = []
         for fid, mk, kd, ver in (("internal-path-substring", c15_gen.known_internal_path_project, "expr", 8),
                                  ("annotate-trailing-blanks", c15_gen.known_trailing_blanks_project, "expr", 8),
-                                 ("gate-renumbers-slots", c15_gen.known_gate_slots_project, "router", 7)):
+                                 ("gate-renumbers-slots", c15_gen.known_gate_slots_project, "router", 7),
+                                 ("t2pt-comment-in-user-line", c15_gen.known_t2pt_comment_project, "expr", 8)):
             if ck.match_known(lambda f: f["id"] == fid):
                 pr = mk()
                 root = os.path.join(tmp, "known_" + fid)
